@@ -210,10 +210,12 @@ func (x *Exec) havocAll(n *vnode) {
 			continue
 		}
 		n.heap[k] = x.eng.FreshVar(k, n.heap[k].S)
+		x.initCompAxiomsWF(k, n.heap[k])
 	}
 	for _, k := range sortedKeys(x.heap0) {
 		if _, ok := n.heap[k]; !ok && !x.isImmutableComp(k) {
 			n.heap[k] = x.eng.FreshVar(k, x.heap0[k].S)
+			x.initCompAxiomsWF(k, n.heap[k])
 		}
 	}
 	x.havocked = true
